@@ -77,23 +77,19 @@ class OutputManager:
                 wall_temperature = design.ghe.bhe.soil.ugt + d_tb
                 hp_eft_val = design.ghe.hp_eft[i]
                 csv_row = [tv, self.hours_to_month(tv)]
-                if i > 1:
-                    csv_row.append(lv)
-                    csv_row.append(lv / (design.ghe.bhe.b.H * design.ghe.nbh))
-                else:
-                    csv_row.append(0)
-                    csv_row.append(0)
+                # design.ghe.loading holds the load of the segment that ends at each time (the two leading zeros of the
+                # hybrid arrays are already cut off): every row carries it, the first two included
+                csv_row.append(lv)
+                csv_row.append(lv / (design.ghe.bhe.b.H * design.ghe.nbh))
                 csv_row.append(design.ghe.bhe.soil.ugt + design.ghe.dTb[i - 1])
                 csv_row.append(design.ghe.hp_eft[i - 1])
                 csv_array.append(csv_row)
             else:
                 csv_row = [tv, self.hours_to_month(tv)]
-                if i > 1:
-                    csv_row.append(lv)
-                    csv_row.append(lv / (design.ghe.bhe.b.H * design.ghe.nbh))
-                else:
-                    csv_row.append(0)
-                    csv_row.append(0)
+                # design.ghe.loading holds the load of the segment that ends at each time (the two leading zeros of the
+                # hybrid arrays are already cut off): every row carries it, the first two included
+                csv_row.append(lv)
+                csv_row.append(lv / (design.ghe.bhe.b.H * design.ghe.nbh))
                 csv_row.append(design.ghe.bhe.soil.ugt + design.ghe.dTb[i - 1])
                 csv_row.append(design.ghe.hp_eft[i - 1])
                 csv_array.append(csv_row)
